@@ -154,3 +154,33 @@ func stringLit(e ast.Expr) (string, bool) {
 	s, err := strconv.Unquote(bl.Value)
 	return s, err == nil
 }
+
+// errorStrings lists, in source order, the string literals passed to
+// errors.New / fmt.Errorf in fd.
+func errorStrings(fd *ast.FuncDecl) []string {
+	var out []string
+	if fd == nil || fd.Body == nil {
+		return out
+	}
+	ast.Inspect(fd.Body, func(n ast.Node) bool {
+		ce, ok := n.(*ast.CallExpr)
+		if !ok || len(ce.Args) == 0 {
+			return true
+		}
+		se, ok := ce.Fun.(*ast.SelectorExpr)
+		if !ok {
+			return true
+		}
+		id, ok := se.X.(*ast.Ident)
+		if !ok {
+			return true
+		}
+		if (id.Name == "errors" && se.Sel.Name == "New") || (id.Name == "fmt" && se.Sel.Name == "Errorf") {
+			if s, ok := stringLit(ce.Args[0]); ok {
+				out = append(out, s)
+			}
+		}
+		return true
+	})
+	return out
+}
